@@ -158,7 +158,7 @@ def run(ctx):
     # E1: the property predicates as invariants of the composite (spec/MC_Rapid.tla)
     mcrapid.check(ctx, ['ResetIsFresh'])
     # forced schedules through the pause points of /repo (-tags verif)
-    sc.run_families(ctx, forced.scenarios('c08', ('watch-late-cancel', 'clear-vs-invoke')), "forced-schedule")
+    sc.run_families(ctx, forced.scenarios('c08', ('watch-late-cancel', 'clear-vs-invoke', 'stale-failure-record')), "forced-schedule")
     ctx.assumptions += sc.ASSUME
     scs = scenarios(ctx)
     summary, outcomes = sc.run_families(ctx, scs, "reset-suffix", require_done=False)
